@@ -184,6 +184,10 @@ func (fx *FuncExec) refFacts(st *State, res Val) {
 		if v.S != "" && v.T != nil && isRefType(v.T) {
 			fx.em.Assert(fmt.Sprintf("(<= %s %s)", v.S, top))
 		}
+		if v.S != "" && v.Sort == SSlice {
+			// backing arrays of existing slices were allocated earlier
+			fx.em.Assert(fmt.Sprintf("(<= (s.arr %s) %s)", v.S, top))
+		}
 	}
 	walk(res)
 }
@@ -450,6 +454,10 @@ func (fx *FuncExec) havocLocation(st *State, env *SpecEnv, m Clause) {
 		}
 	}
 	l := fx.evalLoc(&SpecEnv{fx: fx, cur: env.old, old: env.old, bind: env.bind, calleeFn: env.calleeFn, calleeMode: env.calleeMode}, e)
+	if l.Kind == LGhost {
+		fx.Store(st, l, Val{Sort: Sort(l.GSort), S: fx.em.FreshRaw("mod:ghost", l.GSort)})
+		return
+	}
 	nv := fx.freshVal(l.T, "mod", st)
 	fx.Store(st, l, nv)
 }
@@ -765,6 +773,7 @@ func (fx *FuncExec) execLock(st *State, mu Val, pos token.Pos) {
 		}
 	}
 	rec.AtLock = st.Clone()
+	st.labels[fmt.Sprintf("lock%d", fx.lockOrd)] = rec.AtLock
 	st.lockInfo[key] = rec
 }
 
